@@ -61,6 +61,17 @@ fn parse_period(period: &str) -> Result<(i32, u32), FxParseError> {
     let date_str = start.split("to").next().unwrap_or(start).trim();
     let parsed = NaiveDate::parse_from_str(date_str, "%d/%b/%Y")
         .map_err(|_| FxParseError::InvalidPeriod(period.to_string()))?;
+
+    // "01/Jan/2024 to 31/Jan/2024": a period that ends in another month than it starts in does
+    // not describe one month's rates.
+    if let Some((_, end)) = period.split_once(" to ") {
+        let end = NaiveDate::parse_from_str(end.trim(), "%d/%b/%Y")
+            .map_err(|_| FxParseError::InvalidPeriod(period.to_string()))?;
+        if (end.year(), end.month()) != (parsed.year(), parsed.month()) {
+            return Err(FxParseError::InvalidPeriod(period.to_string()));
+        }
+    }
+
     Ok((parsed.year(), parsed.month()))
 }
 
